@@ -48,7 +48,7 @@ def transformation(draw, p, kinds):
     elif kind == "shift":
         t["shift"] = [draw(st.one_of(st.sampled_from([3.0, -7.5, 10.0]), st.floats(-10, 10, allow_nan=False))) for _ in range(p)]
     elif kind == "scale":
-        t["scale"] = draw(st.one_of(st.sampled_from([2.0, 0.5, 10.0, 0.1]), st.floats(0.1, 10, allow_nan=False)))
+        t["scale"] = draw(st.one_of(st.sampled_from([2.0, 0.5, 10.0, 0.1, 0.01, 100.0]), st.floats(0.1, 10, allow_nan=False)))
     return t
 
 
@@ -75,7 +75,7 @@ def mirror_cut(cut, n):
 def scorer_cases(draw, tier):
     name = draw(st.sampled_from(sorted(SCORERS)))
     spec, k, kinds = SCORERS[name]
-    p = draw(st.integers(1, 3 if "Cov" not in name else 2))
+    p = draw(st.integers(1, 3))
     ms = K.scorer_min_size(spec, p)
     nmin = {2: ms, 3: 2 * ms, 4: max(2 * ms, ms + 2)}[k]
     n = draw(st.integers(nmin, 40))
@@ -116,21 +116,29 @@ def _minvar(rows, multivariate):
     return float((c ** 2).mean(axis=0).min())
 
 
-def scorer_tolerance(name, X, Xt, cuts, n):
-    """Absolute tolerance for comparing a score on X with the related score on Xt; None = skip (near-degenerate)."""
-    M = max(D.max_abs(X.tolist()), D.max_abs(Xt.tolist()), 1e-300)
+def _tolerance_one(name, X, cuts, n):
+    """Tolerance contribution of one data set, from its own magnitude and its own smallest slice variance."""
+    M = max(D.max_abs(X.tolist()), 1e-300)
     B = ref.error_bound(n, M)
     if "Gaussian" in name:
         mv = "Cov" in name
-        vmin = min(min_slice_variance(X, cuts, mv), min_slice_variance(Xt, [c for c in cuts], mv) if Xt.shape == X.shape else np.inf)
-        scale2 = max(M * M, 1e-300)
-        if not np.isfinite(vmin) or vmin <= max(1e-8 * scale2, 1e-300):
+        vmin = min_slice_variance(X, cuts, mv)
+        if not np.isfinite(vmin) or vmin <= max(1e-8 * M * M, 1e-300):
             return None
         width = max(c[-1] - c[0] for c in cuts)
         return 16 * X.shape[1] * width * B / vmin
     if name == "CUSUM":
         return 16 * (n + 1) ** 2 * ref.EPS * M
     return 16 * B
+
+
+def scorer_tolerance(name, X, Xt, cuts, cuts_t, n):
+    """Absolute tolerance for comparing a score on X with the related score on Xt; None = skip (near-degenerate)."""
+    a = _tolerance_one(name, X, cuts, n)
+    b = _tolerance_one(name, Xt, cuts_t, n)
+    if a is None or b is None:
+        return None
+    return a + b
 
 
 def check_scorer(case):
@@ -143,11 +151,7 @@ def check_scorer(case):
     cuts = np.asarray(case["cuts"], dtype=np.int64)
     cuts_t = np.asarray([mirror_cut(c, n) for c in case["cuts"]], dtype=np.int64) if t["kind"] == "reverse" else cuts
     classes = [f"scorer={name}", f"relation={t['kind']}"]
-    if t["kind"] == "reverse":
-        tol_cuts = [c for c in case["cuts"]]
-        tol = scorer_tolerance(name, X, X, tol_cuts, n)
-    else:
-        tol = scorer_tolerance(name, X, Xt, case["cuts"], n)
+    tol = scorer_tolerance(name, X, Xt, case["cuts"], cuts_t.tolist(), n)
     if tol is None:
         return {"nontrivial": False, "classes": classes + ["near_degenerate_skipped"]}
     try:
@@ -418,7 +422,7 @@ def det_facet(det, nq, nt):
 
 FACETS = [
     Facet(name="scorers", check=check_scorer, strategy=scorer_cases,
-          rule=("12 scorer configurations x {column permutation, per-column shift in [-10,10], positive scale in [0.1,10], time "
+          rule=("12 scorer configurations x {column permutation, per-column shift in [-10,10], positive scale in [0.01,100], time "
                 "reversal} where the property claims the relation; outputs compared within the error model (B computed with M "
                 "including the shift/scale); non-trivial = non-identity transformation"),
           n_quick=1200, n_thorough=15000, shards_quick=8, shards_thorough=16),
